@@ -149,7 +149,20 @@ let run_case acc ~(family : (string * string) list list) ~(use_readers : bool) (
           | _ ->
             fail acc ~kind:"spec_violation" ~what:(Printf.sprintf "%s merger returned %s where the merged content gives %s" (tag ()) (show_e ie) (show_e se)) (JO [ "case", case (); "step", JI nstep ]);
             raise Exit)
-       end else if ie = None && se <> None then failed := true) ops
+       end else begin
+         (* with a failing merge function the history goes on after the failed call: whatever is delivered then is still
+            an entry of the sources - its key is held by some source, and its value folds values held for that key *)
+         (match ie with
+          | Some (ik, iv) ->
+            (match List.assoc_opt ik spec_vals with
+             | None ->
+               fail acc ~kind:"spec_violation" ~what:"[C04] after a failed merge the merger delivered a key that no source holds" (JO [ "case", case (); "step", JI nstep; "key", jbytes ik; "value", jbytes iv ]); raise Exit
+             | Some atoms ->
+               if not (List.for_all (fun a -> List.mem a atoms) (split_atoms iv)) then begin
+                 fail acc ~kind:"spec_violation" ~what:"[C04] after a failed merge the merger delivered a value that is not a fold of values held for that key" (JO [ "case", case (); "step", JI nstep; "key", jbytes ik; "value", jbytes iv ]); raise Exit end)
+          | None -> ());
+         if ie = None && se <> None then failed := true
+       end) ops
    with Exit -> ());
   Rd.impl_destroy it;
   c_merger_destroy m; if mc <> 0n then c_merge_clos_free mc;
